@@ -108,6 +108,28 @@ func buildCorpus(c *Ctx, nGen int, withRepo, withStd bool) ([]corpusFn, error) {
 			}
 		}
 	}
+	// the counted-loop family of the C12 suite (all forms, wrong-direction steps, nested)
+	if nGen > 0 {
+		var lsrc strings.Builder
+		lsrc.WriteString("package genpkg\n\n")
+		for i := 0; i < 40*nGen; i++ {
+			pl, _ := genLoopSpec(r.Fork(), i).sources()
+			lsrc.WriteString(pl)
+		}
+		f, err := writeModule(c.Work, "cgloops", "a.go", lsrc.String())
+		if err != nil {
+			return nil, err
+		}
+		res, err := fingerprintFile(f, lsrc.String(), ir.DefaultLiteralPolicy)
+		if err != nil {
+			return nil, fmt.Errorf("generated loops do not load: %v", err)
+		}
+		for _, fr := range res {
+			if fn := fr.GetSSAFunction(); fn != nil {
+				corpus = append(corpus, corpusFn{fr.FunctionName, "loops", fn})
+			}
+		}
+	}
 	if withRepo {
 		repo := os.Getenv("VERIF_REPO")
 		if repo == "" {
